@@ -22,6 +22,7 @@ Fresh(o) ==
   /\ blob' = [b \in Blocks |-> NoBlob]
   /\ applied' = FALSE /\ phase' = "down" /\ next' = 0
   /\ held' = Idle /\ batch' = NoBatches /\ crashes' = 0
+  /\ cancelled' = FALSE /\ cancels' = 0
   /\ act' = [name |-> "Init"]
 
 Reset == \E e1 \in R1(0..(3 * NR)), e2 \in R1(0..(3 * NR)), k \in R1(1..8) : Fresh(Shape(e1, e2, k))
@@ -32,6 +33,7 @@ MBTInit ==
   /\ blob = [b \in Blocks |-> NoBlob]
   /\ applied = FALSE /\ phase = "down" /\ next = 0
   /\ held = Idle /\ batch = NoBatches /\ crashes = 0
+  /\ cancelled = FALSE /\ cancels = 0
   /\ act = [name |-> "Init"]
   /\ hist = <<>>
 
@@ -41,6 +43,7 @@ SimNext ==
     [] OTHER ->
          \E r \in R1(1..7) :
            IF r = 1 /\ crashes < MaxCrashes THEN Crash
+           ELSE IF r = 2 /\ ~cancelled /\ cancels < MaxCancels THEN Cancel
            ELSE \E i \in R1({j \in Ing : held[j] # NoRange}) : Finish(i, FALSE)
 
 Seq0(f) == [k \in 1..NBlocks |-> f[k - 1]]
